@@ -339,6 +339,55 @@ func runSchedule(res *core.Result, r *rand.Rand, s setup, initSet int, retries i
 	return branch, true
 }
 
+// concurrentInitiation: several local workers of one router start a setup with the same peer at the same moment
+// (two packets to a router without keys, handled by two tun workers). Whatever they send is then delivered in a
+// seeded order; the usual verdict applies.
+func concurrentInitiation(res *core.Result, r *rand.Rand, s setup, workers int) {
+	w, err := buildWorld(r, s, 0)
+	if err != nil {
+		res.Inconcl("world: %v", err)
+		return
+	}
+	n, peer := w.node(0), w.peerOf(0).ID.IP
+	start := make(chan struct{})
+	var wg sync.WaitGroup
+	for g := 0; g < workers; g++ {
+		wg.Add(1)
+		go func() {
+			defer wg.Done()
+			<-start
+			_, _ = n.Inst.RouterV.HelloPing.Send(peer)
+		}()
+	}
+	close(start)
+	wg.Wait()
+	sent := w.ms.Pending()
+	pol := vmesh.FIFO
+	order := "fifo"
+	if r.IntN(2) == 0 {
+		pol = vmesh.RandomOrder(r)
+		order = "random"
+	}
+	if _, drained := w.ms.Drain(pol, 200); !drained {
+		res.Violate("setup-does-not-drain", "concurrent initiation produced an endless message exchange", nil)
+		return
+	}
+	desc := fmt.Sprintf("relay=%v swapped=%v: %d local workers start a setup at once (%d request(s) left the router), delivery %s", s.relay, s.swapped, workers, sent, order)
+	if len(w.ms.Panics) > 0 {
+		res.Violate("handler-panic", fmt.Sprintf("%s: %v", desc, w.ms.Panics[0]), map[string]any{"setup": desc})
+		return
+	}
+	if sig, msg := w.verdict(); sig != "" {
+		res.Violate(sig+":concurrent-local-initiation", fmt.Sprintf("%s: %s", desc, msg), map[string]any{"setup": desc, "case_id": "concurrent-initiation"})
+		return
+	}
+	res.Count("concurrent_initiations", 1)
+	if sent > 1 {
+		res.Count("concurrent_initiations_with_two_requests", 1)
+	}
+	res.Case(fmt.Sprintf("concurrent-initiation|%v|%v|%d|%d|%s", s.relay, s.swapped, workers, sent, order), true)
+}
+
 func dfs(res *core.Result, r *rand.Rand, s setup, initSet, retries, budget int) {
 	var choices []int
 	count := 0
@@ -418,6 +467,12 @@ func run(c *core.Ctx) {
 		dfs(res, r, j.s, j.initSet, j.retries, j.budget)
 		for i := 0; i < j.random; i++ {
 			runSchedule(res, r, j.s, j.initSet, j.retries, nil, true)
+		}
+	})
+	parallel(4, func(w int) {
+		r := core.RNG(fmt.Sprintf("c14/conc/%d", w))
+		for i := 0; i < c.Q(150, 3000); i++ {
+			concurrentInitiation(res, r, setup{relay: i%4 == 3, swapped: i%2 == 1, ids: ids}, 2+i%3)
 		}
 	})
 	res.Sample("relay=false swapped=false initiators=[A B]: init A; init B; deliver m1(from A); deliver m2(from B); deliver m3(from B); deliver m4(from A)")
